@@ -131,7 +131,9 @@ example : decode ⟨false, false⟩ [49, 32, 78] = .panic .indentTooLarge := by
     exactly the conditions (and branch exits: return / continue / break / panic) that the model's
     `step`, `place`, `parseLine`, `splitLines` and `stripBOM` were written from.  This pins *where*
     the decoder can return an error, continue a previous value or panic; what each branch computes
-    is tied by the correspondence.  A rewritten loop breaks this obligation and the run then
+    is tied by the correspondence.  decoder.go starts no goroutine, uses no channel and defers no
+    call (the model's loop is sequential; a producer/consumer read-ahead would add exits the model
+    does not have).  A rewritten loop breaks this obligation and the run then
     searches for a failing input with every stream. -/
 theorem decode_source_shape :
     Generated.conditionsOfDecode =
@@ -158,6 +160,7 @@ theorem decode_source_shape :
        "if family == nil => return"] ∧
     Generated.conditionsOfReadLine =
       ["for", "if err != nil => return", "if b == '\\n' || b == '\\r' => break"] ∧
-    Generated.conditionsOfConsumeOptionalBOM = ["if hasBOM"] := by decide
+    Generated.conditionsOfConsumeOptionalBOM = ["if hasBOM"] ∧
+    Generated.decoderConcurrency = [] := by decide
 
 end Gedcom.C03
